@@ -289,7 +289,10 @@ def c12pipe_oracle(op, impl):
 def run_c12(ctx):
     run_stream(ctx, "pipeline", ["c12pipe"], policy="full", oracle=c12pipe_oracle,
                nontrivial=lambda o, i: (o.split(" ")[0], i[:40]))
-    ctx.cov["rule"] = ("scripted Version/Payload/Validate implementations drive the real SealedToken::unseal and UnsealedToken::seal through every combination of "
+    # every corruption class of C02 on the real back ends with a recording decoder and validator:
+    # invocation counts must stay 0 and the error class must be an authentication/format class
+    run_stream(ctx, "mutations", ["c02"], policy="class", oracle=open_oracle("C12"), nontrivial=tok_nontrivial)
+    ctx.cov["rule"] = ("(b) all C02 mutants on the six real back ends with recording Payload::decode / Validate (counts must be 0, error class auth); (a) scripted Version/Payload/Validate implementations drive the real SealedToken::unseal and UnsealedToken::seal through every combination of "
                        "unseal outcome x decode outcome x validator outcome (and nonce/encode/seal outcome); trace of invoked caller code compared with the model; distinct = (op, result, trace)")
 
 
@@ -344,10 +347,90 @@ def run_c14(ctx):
                        "compared with the model and with serde_json::Value; distinct = (member key/type signature, escape style, outcome)")
 
 
+# ------------------------------------------------------------------ tokens: C01, C02, C03, C12
+def want_of(op):
+    w = [x for x in op.split(" ") if x.startswith("want=")]
+    return w[0][5:] if w else None
+
+
+def open_oracle(prop):
+    def f(op, impl):
+        t = op.split(" ")
+        be = t[1] if len(t) > 1 else "?"
+        if t[0] in ("loc.open", "pub.open"):
+            want = want_of(op)
+            purpose = "local" if t[0] == "loc.open" else "public"
+            if impl == "panic":
+                return ("panic while opening a token", "%s/%s/open-panic" % (be, purpose))
+            if want == "err":
+                if impl.startswith("ok"):
+                    return ("a mutated / foreign token was accepted", "%s/%s/mutant-accepted" % (be, purpose))
+                if "dec=0 val=0" not in impl:
+                    return ("decoder or validator ran on an unauthenticated token", "%s/%s/decode-before-auth" % (be, purpose))
+                v = impl.split(" ")[1]
+                aad = t[4]
+                if v not in ("crypto", "invalidToken", "base64") and not (v == "claims" and be in ("v1", "v2") and aad != "-") and not (v == "invalidKey"):
+                    return ("unexpected error kind %s for an unauthenticated token" % v, "%s/%s/error-kind" % (be, purpose))
+            elif want and want.startswith("ok:"):
+                if not impl.startswith("ok ") or impl.split(" ")[1] != want[3:]:
+                    return ("a valid (spec-conforming) token was not accepted with the same claims", "%s/%s/valid-rejected" % (be, purpose))
+        elif t[0] == "o.rt":
+            if not impl.startswith("ok rt=1"):
+                return ("seal -> to_string -> parse -> unseal with the library's own randomness did not return the input: " + impl[:80],
+                        "%s/%s/own-roundtrip" % (be, t[2]))
+        elif t[0] == "o.sib":
+            if impl != "ok same=1 cross12=1 cross21=1":
+                return ("sibling back ends disagree: " + impl, "v%s/local/siblings" % t[1])
+        elif t[0] in ("loc.seal",):
+            aad = t[6]
+            if be in ("v1", "v2") and aad != "-":
+                if impl != "err claims":
+                    return ("non-empty assertion not refused on a version without assertions", "%s/local/aad-ignored" % be)
+            elif len(unhex(t[3])) >= (24 if be == "v2" else 32) and len(unhex(t[2])) == 32 and not impl.startswith("ok "):
+                return ("sealing failed", "%s/local/seal-failed" % be)
+        return None
+    return f
+
+
+def tok_nontrivial(op, impl):
+    t = op.split(" ")
+    if t[0] in ("loc.open", "pub.open"):
+        tok = unhex(t[3])
+        return (t[0], t[1], (want_of(op) or "")[:3], impl.split(" ")[0:2][-1] if impl.startswith("err") else "ok", min(len(tok) // 32, 12), t[4] != "-")
+    if t[0] == "o.rt":
+        return (t[0], t[1], t[2], t[3] == "-", min(len(unhex(t[4])) // 16, 10), t[5] != "-", t[6] != "-")
+    if t[0] in ("loc.seal",):
+        n = unhex(t[3])
+        cls = "zero" if set(n) <= {0} else "ones" if set(n) == {255} else "carry" if n[-8:] == b"\xff" * 8 else "rnd"
+        return (t[0], t[1], cls, min(len(unhex(t[4])) // 16, 10), t[5] != "-", t[6] != "-")
+    return (t[0], t[1])
+
+
+def run_c01(ctx):
+    run_stream(ctx, "roundtrip", ["c01"], policy="okerr", oracle=open_oracle("C01"), nontrivial=tok_nontrivial)
+    ctx.cov["rule"] = ("all six back ends x {local, public} x payload lengths (block boundaries +-1, up to 64 KiB quick / 1 MiB thorough) x footers x assertions; o.rt = encrypt()/sign() with the library's "
+                       "own randomness -> to_string -> parse -> decrypt/verify; tokens made by the own-nonce path are opened by the model; thousands of randomised signatures; distinct = (op, back end, purpose, key source, length class, footer?, aad?)")
+
+
+def run_c02(ctx):
+    run_stream(ctx, "mutations", ["c02"], policy="okerr", oracle=open_oracle("C02"), nontrivial=tok_nontrivial)
+    ctx.cov["rule"] = ("per back end and purpose: sealed tokens x {every bit of nonce/tag/signature and boundary bytes (stride elsewhere; thorough: every bit), every truncation, 1..3-byte extensions, footer/assertion change-add-remove-swap, "
+                       "message/footer/assertion boundary shifts, single-bit key neighbours, header relabel to every other version and purpose}; all must be rejected by the implementation and the model; distinct = (op, back end, outcome, size class, aad?)")
+
+
+def run_c03(ctx):
+    run_stream(ctx, "bitexact", ["c03"], policy="okerr", oracle=open_oracle("C03"), nontrivial=tok_nontrivial)
+    ctx.cov["rule"] = ("loc.seal with injected nonces (random, zero, ones, low-64-bit carry) compared byte-for-byte with the implementation model; specification-built tokens (two-stage: the spec instance of the model seals, "
+                       "the implementation opens) incl. v1 tokens whose embedded counter block wraps its low 64 bits; sibling back ends compared directly; signatures verified by the independent verifier")
+
+
 PROPS = {
     "C15": {"run": run_c15},
     "C09": {"run": run_c09},
     "C10": {"run": run_c10},
+    "C01": {"run": run_c01},
+    "C02": {"run": run_c02},
+    "C03": {"run": run_c03},
     "C11": {"run": run_c11},
     "C12": {"run": run_c12},
     "C14": {"run": run_c14},
